@@ -7,13 +7,20 @@
                (error class, final tree); each must be among the outcomes of the model over a
                family of schedules (6 thread priorities x channel capacities 1, 2, 1024, with
                and without a pseudo-random schedule prefix). *)
-From Wharf Require Import Base.Prelude FS.Tree FS.Ops Heal.Validator Heal.Healer.
+From Wharf Require Import FS.Light FS.Tree FS.Ops Heal.Validator Heal.Healer.
 
 (** trees in case files carry run-length encoded file contents *)
 Inductive rnode := RFile (rle : list (N * N)) | RDir | RLink (dest : list comp).
 Definition of_rnode (n : rnode) : node :=
   match n with RFile r => File (expand r) | RDir => Dir | RLink d => Link d end.
 Definition of_rtree (t : list (path * rnode)) : tree := map (fun e => (fst e, of_rnode (snd e))) t.
+
+(* monomorphic constructors for the generated case files: tuple notations make Coq infer the
+   type arguments of every [pair], which dominated the run time of the correspondence *)
+Definition R (v c : N) : N * N := (v, c).
+Definition E (p : path) (n : rnode) : path * rnode := (p, n).
+Definition LK (p : path) (dest : list comp) : path * list comp := (p, dest).
+Definition FL (p : path) (rle : list (N * N)) : path * list (N * N) := (p, rle).
 
 (* ---------------- fsmodel ---------------- *)
 
@@ -72,6 +79,9 @@ Fixpoint do_ops (t : tree) (os : list fsop) : tree * list fsres :=
 
 Definition fs_case := (N * list (path * rnode) * list fsop * list fsres * list (path * rnode))%type.
 
+Definition FC (id : N) (init : list (path * rnode)) (os : list fsop) (rs : list fsres)
+           (final : list (path * rnode)) : fs_case := (id, init, os, rs, final).
+
 Definition run_fs (init : list (path * rnode)) (os : list fsop) : tree * list fsres := do_ops (of_rtree init) os.
 
 Definition fs_agrees (c : fs_case) : bool :=
@@ -90,6 +100,11 @@ Definition of_rbuild (b : rbuild) : build :=
 
 Definition heal_case :=
   (N * path * rbuild * list (path * rnode) * list (N * list (path * rnode)))%type.
+
+Definition RB (d : list path) (l : list (path * list comp)) (f : list (path * list (N * N))) : rbuild := (d, l, f).
+Definition OUT (cls : N) (t : list (path * rnode)) : N * list (path * rnode) := (cls, t).
+Definition HC (id : N) (T : path) (b : rbuild) (t0 : list (path * rnode))
+           (outs : list (N * list (path * rnode))) : heal_case := (id, T, b, t0, outs).
 
 Definition tid_of (n : N) : tid := match n with 0%N => TV | 1%N => TH | _ => TW end.
 
